@@ -1236,6 +1236,20 @@ M('sweep11.macros.emit_level_dropped', ['C17'], 'macros/src/emit.rs',
   'push_evt_props(&mut props, opts.level)?;',
   'push_evt_props(&mut props, None)?;', 'C17.R6:macro-level-used')
 
+# ---- reverse patch of fix ab610ab (D28: reuse path never syncs the directory entry) ---------------------------------------------------------
+M("C10.rev_fix_reuse_without_sync_parent", ["C10"], "emitter/file/src/lib.rs",
+  """        fs.sync_parent(file_path)?;
+
+        let file_size_bytes = file.len()?;""",
+  """        let file_size_bytes = file.len()?;""", "C10.R5:sync_parent-on-reuse")
+M("C10.reuse_sync_parent_outcome_dropped", ["C10"], "emitter/file/src/lib.rs",
+  """        fs.sync_parent(file_path)?;
+
+        let file_size_bytes = file.len()?;""",
+  """        let _ = fs.sync_parent(file_path);
+
+        let file_size_bytes = file.len()?;""", "C10")
+
 # ---- round 6 (own probing of the blocking entry points): Trigger, send_or_wait, callbacks ------------------------------------------
 M("C07.wait_zero_timeout_reports_flushed", ["C07"], "batcher/src/sync.rs",
   "            if timeout == Duration::ZERO {\n                return false;", "            if timeout == Duration::ZERO {\n                return true;", "C07.R4:Trigger")
